@@ -18,6 +18,7 @@ RULE = ("generated expr = sum k_i * w_i with coefficients from {-1, integers, sy
         "-> ValueError, non-vector -> TypeError. solve_for_scalar: every returned Eq(sym, sol) substituted into the equation "
         "gives 0 (incl. radical equations with an extraneous root); apply: sides equal f(lhs), f(rhs). "
         "non-trivial = >=2 terms; distinct = (equation, unknown, mode).")
+RULE = RULE + ' Also: eleven ill-formed expressions (a vector in a denominator in whatever form, scalar + vector, norm, vector + dot product) must be refused.'
 ASSUMPTIONS = ["vf/vecsem.py coordinate semantics", "3 random real assignments decide a rational identity"]
 N = {"quick": 480, "thorough": 19200}
 MIN_REACH = {"quick": {"rearranged": 1200, "refused_not_a_term": 80, "refused_non_vector": 30, "solution_substituted": 150,
